@@ -367,6 +367,23 @@ class DictObjNew(DictObj):
 
 DICT_OBJ_NEW = DictObjNew('tok', n=[3])
 
+class DictObjGuard(DictObj):
+  """Dict-based object whose class has attribute protocol of its own: assignments are counted
+  (restoring its state must write the instance dict, not go through __setattr__)."""
+
+  def __init__(self, **kw):
+    self.__dict__.update(kw)
+
+  def __setattr__(self, name, value):
+    self.__dict__['edits'] = self.__dict__.get('edits', 0) + 1
+    self.__dict__[name] = value
+
+  def __repr__(self):
+    return f'DictObjGuard({self.__dict__!r})'
+
+
+DICT_OBJ_GUARD = DictObjGuard(value=7, items=[1, 2])
+
 LAMBDA = lambda: None  # unserializable on purpose  pylint: disable=unnecessary-lambda-assignment
 
 CANARY_CALLS = []
